@@ -997,10 +997,64 @@ func (e *Enc) writesRecvFields() bool {
 	return storesToStruct(e.fn, deref(e.fn.Signature.Recv().Type()))
 }
 
+// invFields: names of the receiver fields that the object invariants of a type mention (nil = all fields).
+func (w *World) invFields(pkg, typeName string) map[string]bool {
+	out := map[string]bool{}
+	var walk func(x Expr, recv string)
+	walk = func(x Expr, recv string) {
+		switch n := x.(type) {
+		case *SelE:
+			if id, ok := n.X.(*Ident); ok && id.Name == recv {
+				out[n.Name] = true
+			}
+			walk(n.X, recv)
+		case *Unary:
+			walk(n.X, recv)
+		case *Binary:
+			walk(n.X, recv)
+			walk(n.Y, recv)
+		case *CondE:
+			walk(n.C, recv)
+			walk(n.A, recv)
+			walk(n.B, recv)
+		case *CallE:
+			for _, a := range n.Args {
+				walk(a, recv)
+			}
+		case *IndexE:
+			walk(n.X, recv)
+			walk(n.I, recv)
+		case *SliceE:
+			walk(n.X, recv)
+		case *QuantE:
+			walk(n.Body, recv)
+		case *OldE:
+			walk(n.X, recv)
+		}
+	}
+	for _, iv := range w.cs.Invs {
+		if iv.Pkg == pkg && strings.TrimPrefix(iv.Type, "*") == typeName {
+			walk(iv.Clause.E, iv.RecvName)
+		}
+	}
+	return out
+}
+
 func storesToStruct(fn *ssa.Function, st types.Type) bool {
+	return storesToFields(fn, st, nil)
+}
+
+func storesToFields(fn *ssa.Function, st types.Type, fields map[string]bool) bool {
 	isField := func(v ssa.Value) bool {
 		fa, ok := v.(*ssa.FieldAddr)
-		return ok && types.Identical(deref(fa.X.Type()), st)
+		if !ok || !types.Identical(deref(fa.X.Type()), st) {
+			return false
+		}
+		if fields == nil {
+			return true
+		}
+		u, ok := st.Underlying().(*types.Struct)
+		return ok && fa.Field < u.NumFields() && fields[u.Field(fa.Field).Name()]
 	}
 	fromField := func(v ssa.Value) bool {
 		ld, ok := v.(*ssa.UnOp)
